@@ -177,14 +177,56 @@ func runC07(e *Env) {
 			return err != nil && strings.Contains(err.Error(), fmt.Sprintf("injected-panic-%d", f.Arg))
 		}
 	}
+	// follow-up: locks were released, the observable and the subscription are still usable
+	followUp := func() {
+		rec2 := e.NewRec("followup")
+		h2 := e.Subscribe(o, rec2.Observer(), nil)
+		released := false
+		e.Go("late-unsubscriber", func() {
+			e.WaitFor(func() bool { return h.Ret() })
+			if h.Sub() != nil {
+				func() {
+					defer func() { recover() }()
+					h.Sub().Unsubscribe()
+				}()
+				h.Sub().Wait()
+			}
+			released = true
+		})
+		e.SettleFor(50 * Unit)
+		if e.K.Capped() {
+			return
+		}
+		if !h2.Ret() {
+			e.Violate("C07", "unusable-after-failure", fmt.Sprintf("after fault %s at %s#%d a new Subscribe on the same observable does not return", f.Kind, f.Site, f.Inv))
+		} else if msg := rec2.GrammarError(); msg != "" {
+			e.Violate("C01", "grammar", msg)
+		}
+		if h.Ret() && !released {
+			e.Violate("C07", "subscription-unusable-after-failure", fmt.Sprintf("after fault %s at %s#%d Unsubscribe/Wait on the subscription that Subscribe had returned never come back", f.Kind, f.Site, f.Inv))
+		}
+		for _, a := range e.K.Actors() {
+			if a.Blocked() && a.PendingKind().String() == "lock" {
+				e.Violate("C07", "lock-left-held", fmt.Sprintf("actor %s is blocked on a lock at quiescence after the failure", a.Site))
+			}
+		}
+	}
 	for i := 0; i < before && i < len(rec.Events); i++ {
 		if rec.Events[i].K != 'N' {
 			// the stream had already terminated when the callback failed: nobody is left to be told
 			e.Probe("fault-after-terminal")
+			if f.Site == "src.teardown" {
+				e.Probe("fault-in-teardown")
+				followUp()
+			}
 			return
 		}
 	}
 	switch f.Site {
+	case "src.teardown":
+		// (reached when the teardown ran before any terminal was delivered) nobody is promised an Error
+		// for it; what is promised is checked above and in the follow-up
+		e.Probe("fault-in-teardown")
 	case "obs.error", "obs.complete":
 		// nobody can be told: the unhandled-error hook must have fired
 		if len(e.Unhandled) == 0 {
@@ -235,23 +277,7 @@ func runC07(e *Env) {
 			e.Violate("C07", "delivery-after-failure", fmt.Sprintf("fault %s at %s#%d: notifications delivered after the Error: %s", f.Kind, f.Site, f.Inv, rec.Trace()))
 		}
 	}
-	// follow-up probe: locks were released, the observable is still usable
-	rec2 := e.NewRec("followup")
-	h2 := e.Subscribe(o, rec2.Observer(), nil)
-	e.SettleFor(50 * Unit)
-	if e.K.Capped() {
-		return
-	}
-	if !h2.Ret() {
-		e.Violate("C07", "unusable-after-failure", fmt.Sprintf("after fault %s at %s#%d a new Subscribe on the same observable does not return", f.Kind, f.Site, f.Inv))
-	} else if msg := rec2.GrammarError(); msg != "" {
-		e.Violate("C01", "grammar", msg)
-	}
-	for _, a := range e.K.Actors() {
-		if a.Blocked() && a.PendingKind().String() == "lock" {
-			e.Violate("C07", "lock-left-held", fmt.Sprintf("actor %s is blocked on a lock at quiescence after the failure", a.Site))
-		}
-	}
+	followUp()
 }
 
 func isOperatorError(err error) bool {
